@@ -98,7 +98,12 @@ func (mw *Middleware) serveAndroidMetric(
 	}
 
 	resp := nwrw.Msg()
+
+	// Keep the response code, since [dns.Msg.SetReply] resets it.
+	rcode := resp.Rcode
 	resp.SetReply(origReq)
+	resp.Rcode = rcode
+
 	mw.replaceResp(origReq.Question[0].Name, resp)
 
 	err = rw.WriteMsg(ctx, origReq, resp)
